@@ -17,8 +17,8 @@ from symx.vc import VC, eq_formula
 from readers import eamtables
 
 NAMES = ["Cu", "Al", "Zr", "B"]          # deliberately not in sorted order
-ZNUM = {"Cu": 29, "Al": 13, "Zr": 40, "B": 5}
-LATT = {"Cu": "fcc", "Al": "bcc", "Zr": "hcp", "B": "dia"}
+ZNUM = {"Cu": 29, "Al": 13, "Zr": 40, "B": 5, "Fe_gamma": 26, "Fe_alpha": 27}      # (8-character labels: the longest DL_POLY accepts)
+LATT = {"Cu": "fcc", "Al": "bcc", "Zr": "hcp", "B": "dia", "Fe_gamma": "fcc", "Fe_alpha": "bcc"}
 
 
 class Model(object):
@@ -39,6 +39,8 @@ class Model(object):
     # energy_override: pair keys whose potential is a Potential subclass overriding energy() (its table is that method's
     # value, function phiE_a_b, not the wrapped potentialFunction phi_a_b)
     self.energy_override = set()
+    # fs_on_demand: the density mappings hold nothing to begin with and build each A->B function when first subscripted (__missing__)
+    self.fs_on_demand = False
     # surplus: pair potentials handed to the writer that mention a species the model does not tabulate
     # ((a, b) species as declared); the file must be the same as without them
     self.surplus = list(surplus or [])
@@ -59,6 +61,8 @@ class Model(object):
       s += " one-object-for=%s" % ",".join("%s=%s" % kv for kv in sorted(self.alias.items()))
     if self.fs_undeclared:
       s += " undeclared-densities=%s" % ",".join("%s->%s" % p for p in sorted(self.fs_undeclared))
+    if self.fs_on_demand:
+      s += " densities-built-on-demand"
     if self.energy_override:
       s += " energy()-overridden-for=%s" % ",".join("%s-%s" % p for p in sorted(self.energy_override))
     if self.dip is not None:
@@ -126,7 +130,20 @@ def build_objects(model, mk, meta):
     return made[name]
   eampots = []
   for e in model.elements:
-    if model.fs:
+    if model.fs and model.fs_on_demand:
+      class _OnDemand(dict):
+        def __init__(self, e_):
+          dict.__init__(self)
+          self.e_ = e_
+
+        def __missing__(self, b):
+          if b not in model.elements:
+            raise KeyError(b)
+          f = mk("rho_%s_%s" % (self.e_, b))
+          self[b] = f
+          return f
+      dens = _OnDemand(e)
+    elif model.fs:
       if model.fs_undeclared:
         zero = _Zero()
         dens = collections.defaultdict(lambda zero=zero: zero)
